@@ -241,9 +241,11 @@ def main():
                          "m = t.rows.mask[s1, s2]\nassert [bool(x) for x in m] == [k in set(int(q) for q in i) for k in range(len(t))], (list(m), list(i))\n", "_RowView.__getitem__")
     rac.section("after-updates", "the lookup tables are warmed by a name selector, then the index column is changed through the table API (a cell "
                 "renamed by NAME, by (name, count), by position, a slice of cells, the whole column): every name-based selector "
-                "(name::count, regexp::count, name spans, lists of names) denotes rows of the CURRENT index column", "3 columns x 6 updates x 13 selectors")
+                "(name::count, regexp::count, name spans, lists of names) denotes rows of the CURRENT index column", "3 columns x 12 updates / derivations (t * n, t + t, column and row selections of a table whose lookup tables are warm) x 13 selectors")
     UPD = ["t['name', 'a::1'] = 'zz'", "t['name', ('b', 0)] = 'a'", "t['name', 0] = 'b'", "t['name', 1:3] = ['c', 'c']",
-           "t['name'] = list(t['name'])[::-1]", "t.name = [x + 'x' for x in t['name']]"]
+           "t['name'] = list(t['name'])[::-1]", "t.name = [x + 'x' for x in t['name']]",
+           # a table DERIVED from one whose lookup tables are warm (wave 9, C08-17: derived tables inheriting the source's tables)
+           "t = t * 2", "t = t + t", "t = t.cols['name', 's'] * 3", "t = t.rows[1:]", "t = t.rows[[0, 2]] + t", "t = t._copy() * 2"]
     SELS = ["a::0", "a::1", "a::-1", "b::0", "zz::0", "c::1", ".*::0", ".*::-1", "a.*::1", "[ab]::0>>1", slice("a::0", "b::-1"), slice("b", None),
             ["a::0", "b::0"]]
     for col in [("a", "b", "a", "c", "b"), ("a", "a", "b", "a"), ("b", "a", "c", "a", "a", "b")]:
@@ -252,7 +254,9 @@ def main():
             try:
                 t.rows.indices["a::0"]
                 t.rows.indices[".*::1"]           # (lookup tables built)
-                exec(upd, dict(t=t))
+                env_u = dict(t=t)
+                exec(upd, env_u)
+                t = env_u["t"]                    # (an update may derive a new table and go on with it)
             except Exception:     # noqa  (update not applicable to this column)
                 continue
             newcol = [str(x) for x in t["name"]]
